@@ -41,7 +41,16 @@ enum Crit {
 }
 const MODES: [SelectOp; 3] = [SelectOp::Add, SelectOp::Remove, SelectOp::Keep];
 
-fn dir(id: usize) -> Vector3 { if id == 0 { Vector3::new(0.0, 0.0, 1.0) } else { Vector3::new(1.0, 0.0, 0.0) } }
+fn dir(id: usize) -> Vector3 {
+    match id {
+        0 => Vector3::new(0.0, 0.0, 1.0),
+        2 => Vector3::new(0.0, 0.0, -1.0),
+        3 => Vector3::new(1.0, 1.0, 1.0),          // oblique, not unit length
+        4 => Vector3::new(0.0, 0.0, 5.0),          // long
+        5 => Vector3::new(-1.0e-3, 0.0, 2.0e-3),   // short and oblique
+        _ => Vector3::new(1.0, 0.0, 0.0),
+    }
+}
 
 fn criteria() -> Vec<Crit> {
     let mut v = vec![Crit::Facing(0, 0.1), Crit::Facing(1, std::f64::consts::FRAC_PI_2)];
@@ -267,6 +276,8 @@ pub fn run() -> Option<Report> {
         }
     }
     rotated_storage(&mut r);
+    wave5(&mut r);
+    big_mesh(&mut r);
     Some(r)
 }
 
@@ -354,4 +365,264 @@ fn built_checks(r: &mut Report, mname: &str, mesh: &Mesh, reference: &Mesh, st: 
             }
         }
     }
+}
+
+// ------------------------------------------------------------------------------------------------ wave 5
+// Parameter-space audit (notes/w5_audit_C14.md).  New inputs: meshes with more vertices than faces (one triangle, an
+// asymmetric quad carrying an unused vertex), an open non-square 5 x 3 strip with raised vertices and reversed vertex
+// numbering, a tetrahedron (oblique faces), the 1x2x3 box scaled by 1e3 / 1e-3 (tolerances scaled alike) and moved 1e5
+// away; four reference meshes each: the mesh shifted, the shifted mesh with every face REVERSED (normals flipped), a
+// small plate near one corner of the bounding box (most of the mesh is beyond its edge), and one 100 sizes away
+// (nothing is near).  New criterion values: facing a direction that is not of unit length / oblique / -z, angles 0,
+// negative, 1, 2 and beyond pi; near_mesh with distance tolerance in {0.2, 0, negative, 1e6}, planar tolerance
+// {None, 0.05, 0.15, 1e6}, angle tolerance {None, 1, 2, 3.2 > pi}.  Same clauses as above.
+fn transformed(m: &Mesh, s: f64, off: Vector3) -> Mesh {
+    Mesh::new(m.vertices().iter().map(|p| Point3::from(p.coords * s + off)).collect(), m.faces().to_vec(), false)
+}
+fn reversed_faces(m: &Mesh) -> Mesh { Mesh::new(m.vertices().to_vec(), m.faces().iter().map(|f| [f[0], f[2], f[1]]).collect(), false) }
+fn corner_plate(m: &Mesh, s: f64) -> Mesh {
+    let mut c = m.vertices()[0];
+    for p in m.vertices() { if p.x + p.y + p.z < c.x + c.y + c.z { c = *p; } }
+    let (a, h) = (0.25 * s, 0.046875 * s);
+    Mesh::new(vec![c + Vector3::new(-a, -a, h), c + Vector3::new(a, -a, h), c + Vector3::new(a, a, h), c + Vector3::new(-a, a, h)], vec![[0, 1, 2], [0, 2, 3]], false)
+}
+fn strip() -> Mesh {
+    // 6 x 4 vertices, cells 1 x 1/2, every third vertex raised by 1/4; vertex k of the regular numbering is stored as n-1-k
+    let (nx, ny) = (6usize, 4usize);
+    let n = nx * ny;
+    let mut vertices = vec![Point3::origin(); n];
+    for j in 0..ny { for i in 0..nx {
+        let k = j * nx + i;
+        vertices[n - 1 - k] = Point3::new(i as f64, j as f64 * 0.5, if (i + 2 * j) % 3 == 0 { 0.25 } else { 0.0 });
+    } }
+    let id = |i: usize, j: usize| (n - 1 - (j * nx + i)) as u32;
+    let mut faces = vec![];
+    for j in 0..ny - 1 { for i in 0..nx - 1 {
+        faces.push([id(i, j), id(i + 1, j), id(i + 1, j + 1)]);
+        faces.push([id(i + 1, j + 1), id(i, j + 1), id(i, j)]);
+    } }
+    Mesh::new(vertices, faces, false)
+}
+fn wave5_meshes() -> Vec<(&'static str, Mesh, f64)> {
+    let tri = Mesh::new(vec![Point3::new(0.0, 0.0, 0.0), Point3::new(2.0, 0.0, 0.0), Point3::new(0.0, 1.0, 0.0)], vec![[0, 1, 2]], false);
+    let quad = Mesh::new(vec![Point3::new(9.0, 9.0, 9.0), Point3::new(0.0, 0.0, 0.0), Point3::new(2.0, 0.0, 0.0), Point3::new(2.0, 1.0, 0.5), Point3::new(0.0, 1.0, 0.0)], vec![[1, 2, 3], [3, 4, 1]], false);
+    let tetra = Mesh::new(vec![Point3::new(0.0, 0.0, 0.0), Point3::new(2.0, 0.0, 0.0), Point3::new(0.0, 2.0, 0.0), Point3::new(0.0, 0.0, 2.0)], vec![[0, 2, 1], [0, 1, 3], [0, 3, 2], [1, 2, 3]], false);
+    let b = Mesh::create_box(1.0, 2.0, 3.0, false);
+    vec![
+        ("one triangle (3 vertices, 1 face)", tri, 1.0),
+        ("asymmetric quad with an unused vertex (5 vertices, 2 faces)", quad, 1.0),
+        ("open 5x3 strip, raised vertices, reversed numbering", strip(), 1.0),
+        ("tetrahedron", tetra, 1.0),
+        ("1x2x3 box scaled by 1e3", transformed(&b, 1.0e3, Vector3::zeros()), 1.0e3),
+        ("1x2x3 box scaled by 1e-3", transformed(&b, 0.0009765625, Vector3::zeros()), 0.0009765625),
+        ("1x2x3 box moved by (1e5, -2e5, 3e5)", transformed(&b, 1.0, Vector3::new(1.0e5, -2.0e5, 3.0e5)), 1.0),
+    ]
+}
+fn wave5_criteria(s: f64) -> (Vec<Crit>, Vec<usize>) {
+    let mut v = vec![Crit::Facing(2, 0.1), Crit::Facing(3, 1.0), Crit::Facing(4, 0.5), Crit::Facing(5, 2.0), Crit::Facing(0, 0.0), Crit::Facing(0, -1.0), Crit::Facing(0, 3.2), Crit::Facing(3, 2.0)];
+    let tols = [(None, None), (Some(0.05 * s), None), (None, Some(1.0)), (None, Some(2.0)), (Some(1.0e6 * s), Some(3.2)), (Some(0.15 * s), Some(2.0))];
+    for d in [0.2 * s, 0.0, -1.0 * s, 1.0e6 * s] { for (p, a) in tols { for all in [true, false] { v.push(Crit::Near(all, d, p, a)); } } }
+    // the criteria that also take part in the 2-step chains
+    let chained = vec![1, 3, 5, 6, 8, 9, 12, 15, 18, 20, 21, 44, 55];
+    (v, chained)
+}
+
+fn exercise(r: &mut Report, mname: &str, mesh: &Mesh, reference: &Mesh, judged: &[Crit], chained: &[usize]) {
+    let n = mesh.faces().len();
+    let mut pred: Vec<Vec<bool>> = Vec::new();
+    for c in judged.iter() {
+        let mut p = vec![false; n];
+        for i in 0..n {
+            r.case();
+            let d = || format!("{}: criterion {:?}, face {}", mname, c, i);
+            let keep = run_chain(mesh, reference, &Selection::Indices(vec![i]), &[(*c, SelectOp::Keep)]);
+            r.check(keep.is_empty() || (keep.len() == 1 && keep.contains(&i)), "Keep on a single-face selection yields that face or nothing", d);
+            p[i] = keep.contains(&i);
+            let removed = run_chain(mesh, reference, &Selection::Indices(vec![i]), &[(*c, SelectOp::Remove)]);
+            r.check(removed.contains(&i) == !p[i] && removed.len() <= 1, "the verdict on a face is the same under Keep and Remove", d);
+            if let Some(o) = oracle(mesh, reference, *c, i) {
+                let what = match c {
+                    Crit::Facing(..) => "facing verdict == (angle between the face normal and the direction < angle), false without a normal",
+                    Crit::Near(_, _, None, None) => "near-mesh verdict (distance only) == all / any vertex within the distance by exhaustive point-triangle distance",
+                    Crit::Near(..) => "near-mesh verdict (with tolerances) == per-vertex cap, in-plane distance and normal-angle test on the reported projection",
+                };
+                r.check(p[i] == o, what, d);
+            }
+        }
+        let add = run_chain(mesh, reference, &Selection::None, &[(*c, SelectOp::Add)]);
+        let pset: BTreeSet<usize> = (0..n).filter(|&i| p[i]).collect();
+        r.check(add == pset, "Add from the empty selection yields exactly the faces that satisfy the criterion one at a time", || format!("{}: criterion {:?}: got {:?}, per-face {:?}", mname, c, add, pset));
+        pred.push(p);
+    }
+    let mut sts = starts(n.max(1));
+    sts.retain(|s| match s { Selection::Indices(v) => v.iter().all(|&i| i < n), _ => true });
+    sts.push(Selection::Indices(vec![]));
+    sts.push(Selection::Indices(vec![n - 1]));
+    // as many faces as the mesh has vertices (a selection whose SIZE coincides with another count of the mesh)
+    if mesh.vertices().len() < n { sts.push(Selection::Indices((0..mesh.vertices().len()).collect())); }
+    for st in sts.iter() {
+        let s0 = start_set(n, st);
+        r.case();
+        let got = run_chain(mesh, reference, st, &[]);
+        r.check(got == s0, "the starting selection is the given set of faces", || format!("{}: start {:?}: got {:?}", mname, st, got));
+        built_checks(r, mname, mesh, reference, st, &[], &s0);
+        for c1 in 0..judged.len() { for m1 in MODES {
+            r.case();
+            let e1 = apply(&s0, &pred[c1], m1);
+            let chain1 = [(judged[c1], m1)];
+            let got = run_chain(mesh, reference, st, &chain1);
+            r.check(got == e1, clause(m1), || format!("{}: start {:?}, steps {:?}: got {:?}, expected {:?}", mname, st, chain1, got, e1));
+            let again = run_chain(mesh, reference, st, &chain1);
+            r.check(again == got, "a repeated run (fresh hash sets) yields the same selection", || format!("{}: start {:?}, steps {:?}: {:?} then {:?}", mname, st, chain1, got, again));
+            if chained.contains(&c1) {
+                built_checks(r, mname, mesh, reference, st, &chain1, &e1);
+                for &c2 in chained.iter() { for m2 in MODES {
+                    let e2 = apply(&e1, &pred[c2], m2);
+                    let chain2 = [(judged[c1], m1), (judged[c2], m2)];
+                    let got = run_chain(mesh, reference, st, &chain2);
+                    r.check(got == e2, clause(m2), || format!("{}: start {:?}, steps {:?}: got {:?}, expected {:?} (after the first step {:?})", mname, st, chain2, got, e2, e1));
+                } }
+            }
+        } }
+    }
+}
+
+fn wave5(r: &mut Report) {
+    for (mname, mesh, s) in wave5_meshes().iter() {
+        let (judged, chained) = wave5_criteria(*s);
+        let sh = transformed(mesh, 1.0, Vector3::new(0.125, 0.0625, 0.03125) * *s);
+        let refs: Vec<(&str, Mesh)> = vec![
+            ("shifted copy", transformed(mesh, 1.0, Vector3::new(0.125, 0.0625, 0.03125) * *s)),
+            ("shifted copy with every face reversed", reversed_faces(&sh)),
+            ("small plate near one corner", corner_plate(mesh, *s)),
+            ("copy 100 sizes away", transformed(mesh, 1.0, Vector3::new(100.0, 0.0, 0.0) * *s)),
+        ];
+        for (rname, reference) in refs.iter() {
+            let name = format!("{} / reference: {}", mname, rname);
+            exercise(r, &name, mesh, reference, &judged, &chained);
+        }
+    }
+    // the first three meshes of the main loop against the two references they have not seen (reversed, small plate),
+    // with the new criterion values
+    for (mname, mesh) in meshes().iter() {
+        let (judged, chained) = wave5_criteria(1.0);
+        for (rname, reference) in [("shifted copy with every face reversed", reversed_faces(&shifted(mesh))), ("small plate near one corner", corner_plate(mesh, 1.0)), ("shifted copy", shifted(mesh))].iter() {
+            let name = format!("{} / reference: {}", mname, rname);
+            exercise(r, &name, mesh, reference, &judged, &chained[..6]);
+        }
+    }
+}
+
+// ---- sizes: more than 2^16 vertices and 2^17 faces (every internal threshold on element counts and 16-bit ids)
+fn big_mesh(r: &mut Report) {
+    let nv = 260usize;                      // 260 x 260 = 67 600 vertices, 2 x 259^2 = 134 162 faces
+    let h = 0.015625;
+    let mut vertices = Vec::with_capacity(nv * nv);
+    for j in 0..nv { for i in 0..nv { vertices.push(Point3::new(i as f64 * h, j as f64 * h, (i % 7) as f64 * h)); } }
+    let id = |i: usize, j: usize| (j * nv + i) as u32;
+    let mut faces = Vec::with_capacity(2 * (nv - 1) * (nv - 1));
+    for j in 0..nv - 1 { for i in 0..nv - 1 {
+        faces.push([id(i, j), id(i + 1, j), id(i + 1, j + 1)]);
+        faces.push([id(i + 1, j + 1), id(i, j + 1), id(i, j)]);
+    } }
+    let mesh = Mesh::new(vertices, faces, false);
+    let n = mesh.faces().len();
+    let mname = "260 x 260 vertex saw-tooth sheet (67600 vertices, 134162 faces)";
+    // reference: a plate above the END of the sheet (the vertices with ids >= 2^16 are rows 252 .. 259, y >= 3.9375: they
+    // are near, the vertices with the same ids modulo 2^16 -- rows 0 .. 7 -- are not)
+    let reference = Mesh::new(vec![Point3::new(1.0, 3.0, 0.203125), Point3::new(2.0, 3.0, 0.203125), Point3::new(2.0, 4.25, 0.203125), Point3::new(1.0, 4.25, 0.203125)], vec![[0, 1, 2], [0, 2, 3]], false);
+    let crits = [Crit::Facing(0, 1.0), Crit::Near(true, 0.25, None, None), Crit::Near(false, 0.125, None, None), Crit::Near(true, 0.25, Some(0.0625), Some(1.0))];
+    // per-vertex distances once (the oracle of `oracle` recomputed per face would cost 3 x as much)
+    let mut sets: Vec<(BTreeSet<usize>, BTreeSet<usize>)> = vec![];       // (faces that satisfy, faces too close to a threshold to judge)
+    for c in crits.iter() {
+        let (mut yes, mut unsure) = (BTreeSet::new(), BTreeSet::new());
+        match c {
+            Crit::Facing(..) | Crit::Near(_, _, Some(_), _) | Crit::Near(_, _, _, Some(_)) => {
+                // the generic oracle on a sample would not give sets; these two run it on every face of a band only
+                for i in 0..n { match oracle_fast(&mesh, &reference, *c, i) { Some(true) => { yes.insert(i); } Some(false) => {} None => { unsure.insert(i); } } }
+            }
+            Crit::Near(all, d, None, None) => {
+                let vd: Vec<f64> = mesh.vertices().iter().map(|p| mesh_dist(&reference, p)).collect();
+                for (i, f) in mesh.faces().iter().enumerate() {
+                    let ds = [vd[f[0] as usize], vd[f[1] as usize], vd[f[2] as usize]];
+                    if ds.iter().any(|x| (x - d).abs() < EDGE) { unsure.insert(i); continue; }
+                    let ok = if *all { ds.iter().all(|x| x <= d) } else { ds.iter().any(|x| x <= d) };
+                    if ok { yes.insert(i); }
+                }
+            }
+        }
+        sets.push((yes, unsure));
+    }
+    let all_faces: BTreeSet<usize> = (0..n).collect();
+    let strip_unsure = |s: &BTreeSet<usize>, u: &BTreeSet<usize>| -> BTreeSet<usize> { s.difference(u).copied().collect() };
+    for (k, c) in crits.iter().enumerate() {
+        r.case();
+        let (yes, unsure) = &sets[k];
+        let d = |got: &BTreeSet<usize>, want: &BTreeSet<usize>| format!("{}: criterion {:?}: {} faces selected, {} expected; first difference {:?}", mname, c, got.len(), want.len(), got.symmetric_difference(want).next());
+        r.check(!yes.is_empty() && yes.len() < n, "input space: the criterion splits the large mesh", || format!("{}: criterion {:?}: {} of {}", mname, c, yes.len(), n));
+        let add = run_chain(&mesh, &reference, &Selection::None, &[(*c, SelectOp::Add)]);
+        let (g, w) = (strip_unsure(&add, unsure), strip_unsure(yes, unsure));
+        r.check(g == w, clause(SelectOp::Add), || d(&g, &w));
+        let keep = run_chain(&mesh, &reference, &Selection::All, &[(*c, SelectOp::Keep)]);
+        let g = strip_unsure(&keep, unsure);
+        r.check(g == w, clause(SelectOp::Keep), || d(&g, &w));
+        let rem = run_chain(&mesh, &reference, &Selection::All, &[(*c, SelectOp::Remove)]);
+        let (g, w2) = (strip_unsure(&rem, unsure), strip_unsure(&all_faces.difference(yes).copied().collect(), unsure));
+        r.check(g == w2, clause(SelectOp::Remove), || d(&g, &w2));
+        // a start given as an index list in the upper id range, one face at a time at the very end of the id range
+        let hi: Vec<usize> = (n - 3000..n).rev().collect();
+        let keep_hi = run_chain(&mesh, &reference, &Selection::Indices(hi.clone()), &[(*c, SelectOp::Keep)]);
+        let want_hi: BTreeSet<usize> = hi.iter().copied().filter(|i| yes.contains(i)).collect();
+        let (g, w3) = (strip_unsure(&keep_hi, unsure), strip_unsure(&want_hi, unsure));
+        r.check(g == w3, clause(SelectOp::Keep), || d(&g, &w3));
+    }
+    // chain on the large mesh: facing Add, then near Keep, then near (any vertex) Remove
+    {
+        r.case();
+        let chain = [(crits[0], SelectOp::Add), (crits[1], SelectOp::Keep), (crits[2], SelectOp::Remove)];
+        let got = run_chain(&mesh, &reference, &Selection::None, &chain);
+        let unsure: BTreeSet<usize> = sets[0].1.union(&sets[1].1).chain(sets[2].1.iter()).copied().collect();
+        let want: BTreeSet<usize> = sets[0].0.intersection(&sets[1].0).filter(|i| !sets[2].0.contains(i)).copied().collect();
+        let (g, w) = (strip_unsure(&got, &unsure), strip_unsure(&want, &unsure));
+        r.check(g == w, clause(SelectOp::Remove), || format!("{}: steps {:?}: {} faces, {} expected", mname, chain, g.len(), w.len()));
+    }
+    // built meshes whose vertex ids lie above 2^16
+    let last: Vec<usize> = (n - 2500..n).rev().collect();
+    let lists: Vec<Vec<usize>> = vec![last.clone(), vec![n - 1], vec![0, n - 1, n / 2], (0..n).step_by(997).collect()];
+    for list in lists.iter() {
+        r.case();
+        let d = || format!("{}: create_from_indices on {} faces (first {:?})", mname, list.len(), list.first());
+        match catch_unwind(AssertUnwindSafe(|| mesh.create_from_indices(list))) {
+            Ok(b) => check_built(r, &mesh, list, &b, d),
+            Err(_) => r.check(false, "create_from_indices on a non-empty index list does not panic", d),
+        }
+        let d2 = || format!("{}: face_select(Indices of {} faces).create_mesh()", mname, list.len());
+        match catch_unwind(AssertUnwindSafe(|| mesh.face_select(Selection::Indices(list.clone())).create_mesh())) {
+            Ok(b) => check_built(r, &mesh, list, &b, d2),
+            Err(_) => r.check(false, "create_mesh on a non-empty selection does not panic", d2),
+        }
+    }
+    {
+        r.case();
+        let sel: Vec<usize> = run_chain(&mesh, &reference, &Selection::None, &[(crits[2], SelectOp::Add)]).into_iter().collect();
+        let d = || format!("{}: face_select(None).near_mesh(any vertex within 1/8).create_mesh() ({} faces)", mname, sel.len());
+        match catch_unwind(AssertUnwindSafe(|| step(mesh.face_select(Selection::None), &reference, crits[2], SelectOp::Add).create_mesh())) {
+            Ok(b) => check_built(r, &mesh, &sel, &b, d),
+            Err(_) => r.check(false, "create_mesh on a non-empty selection does not panic", d),
+        }
+    }
+}
+/// the oracle of `oracle`, skipping the exhaustive distance for faces whose vertices are all far outside the reference's
+/// bounding box grown by the distance tolerance (they cannot be near; checked against the box, not against parry)
+fn oracle_fast(mesh: &Mesh, reference: &Mesh, c: Crit, i: usize) -> Option<bool> {
+    if let Crit::Near(all, d, _, _) = c {
+        let (mut lo, mut hi) = (reference.vertices()[0], reference.vertices()[0]);
+        for p in reference.vertices() { lo = Point3::new(lo.x.min(p.x), lo.y.min(p.y), lo.z.min(p.z)); hi = Point3::new(hi.x.max(p.x), hi.y.max(p.y), hi.z.max(p.z)); }
+        let m = d.max(0.0) + 1.0e-3;
+        let t = mesh.faces()[i];
+        let outside = |p: &Point3| p.x < lo.x - m || p.y < lo.y - m || p.z < lo.z - m || p.x > hi.x + m || p.y > hi.y + m || p.z > hi.z + m;
+        let out: Vec<bool> = t.iter().map(|&v| outside(&mesh.vertices()[v as usize])).collect();
+        if (all && out.iter().any(|&b| b)) || out.iter().all(|&b| b) { return Some(false); }
+    }
+    oracle(mesh, reference, c, i)
 }
